@@ -109,7 +109,7 @@ LastOf(s) == s[Len(s)]
 
 C05_RelOk(r, base, RO(_)) ==
     CASE r.name = "wrap"    -> C05_WrapHolds(r.keys, base, RO(r))
-      [] r.name = "sibling" -> C05_SiblingHolds(r.path, r.keys[1], base, RO(r))
+      [] r.name = "sibling" -> C05_SiblingDomain(HistDocs) => C05_SiblingHolds(r.path, r.keys[1], base, RO(r))
       [] OTHER -> TRUE
 C05_TraceHolds(base, RO(_)) ==
     /\ \A x \in DOMAIN Rel : C05_RelOk(Rel[x], base, RO)
